@@ -102,8 +102,9 @@ pub proof fn lemma_inst_iv_intersect_fn(a: IntervalDomain, b: IntervalDomain)
 /// values of at most 4 bytes: the machine-arithmetic side condition on merge_span holds by itself
 pub proof fn lemma_inst_iv_merge_pre_small(a: IntervalDomain, b: IntervalDomain)
     requires a.inv(), b.inv(), a.w() == b.w(), a.w() <= 32, a.widening_delay <= i64::MAX, b.widening_delay <= i64::MAX
-    ensures inst_iv_merge_pre(a, b)
+    ensures inst_iv_merge_pre(a, b), p2(a.w()) <= 0x1_0000_0000,
 {
+    lemma_p2_mono(a.w(), 32);
     let w = a.w();
     lemma_idom_sval_all(w);
     lemma_p2_consts();
